@@ -171,6 +171,7 @@ class Path:
             self.detail = detail
             LAST_FAIL["key"] = key
             LAST_FAIL["detail"] = detail
+            STATS.extra["last_fail"] = {"key": key, "detail": repr(detail)[:800]}
             if not REPLAY and key in KNOWN_KEYS:
                 kh = STATS.extra.setdefault("known_hits", {})
                 kh[key] = kh.get(key, 0) + 1
